@@ -138,6 +138,11 @@ def opMatches : Kind → Op → Bool
   | .setPeriod, .setPeriod .. => true
   | _, _ => false
 
+/-- the module accounts a history may name as the receiver of a bank send (distribution, oracle reward pool, fee collector): every
+module account is on the bank's blocked list (app.go `BlockedModuleAccountAddrs`), so such a send passes basic validation and fails in the
+handler -/
+def isModuleTok (t : String) : Bool := t == "mdistr" || t == "mpool" || t == "mcollector"
+
 mutual
   /-- the message handler behind the router; none = the message fails -/
   def execMsg (H : Str → Str) (a : AState) : Msg → Option AState
@@ -198,7 +203,7 @@ mutual
         | .removeAdmin a _ n => (decodeAcc a).isSome && (decodeAcc n).isSome
         | .setPeriod a _ p => (decodeAcc a).isSome && p != 0
         | _ => false)
-    | .send src dst amt d => (decodeAcc src).isSome && (decodeAcc dst).isSome && validDenom d && 0 < amt
+    | .send src dst amt d => (decodeAcc src).isSome && ((decodeAcc dst).isSome || isModuleTok dst) && validDenom d && 0 < amt
     | .createVal a => (decodeAcc a).isSome
     | .delegate a _ amt => (decodeAcc a).isSome && 0 < amt
     | .exec g ms => (decodeAcc g).isSome && !ms.isEmpty && basicAll ms
